@@ -189,12 +189,13 @@ def finish(pid, a, mod, results, inconclusive, t0, env, s7res=None):
             inconclusive.append('monitor %s recorded zero evaluations' % m)
     # anchor coverage: the workload must have reached every anchored *file*; a single anchored function that is not
     # executed (renamed or bypassed by a refactoring) is reported in the evidence but does not decide anything
-    byfile = collections.defaultdict(int)
-    for k, n in (anchors.items() if results else []):
-        byfile[k.split(':')[0]] += len(n)
-    for f, n in byfile.items():
-        if n == 0:
-            inconclusive.append('no anchored mechanism of %s was executed by the workload' % f)
+    filex = collections.Counter()
+    for r in results:
+        for f, n in r.get('files_executed', {}).items():
+            filex[f] = max(filex[f], n)
+    for f in sorted({k.split(':')[0] for k in anchors} if results else []):
+        if filex.get(f, 0) == 0:
+            inconclusive.append('the workload executed no line of the anchored file %s' % f)
     anchors_idle = sorted(k for k, n in anchors.items() if len(n) == 0)
     if crysp_path and os.path.realpath(crysp_path) != os.path.realpath(os.path.join(REPO, 'crysp')):
         inconclusive.append('crysp imported from %s, not from %s' % (crysp_path, REPO))
